@@ -10,7 +10,7 @@ From SCC Require Import Base.Sexp Lang.AxSyn Sem.AxSem Sem.AxHeap Model.ParMoves
      Proof.RVSel Proof.SubstGraph Proof.SubstBackends Proof.RVSubst Proof.RVSimAddr Proof.BackendInv Proof.RVSimRel
      Proof.RVSimStmt Proof.RVSimClo
      Proof.RVHeapAbs Proof.RVHDefs Proof.RVHMem Proof.RVHBridge Proof.HRep Proof.RVKSimRel Proof.RVKSimStmt Proof.RVKSimStore Proof.RVKSimLoad
-     Proof.RVHLayout Proof.RVKFrag Proof.X86HAnn Proof.RVKClo.
+     Proof.RVHLayout Proof.RVKLayout Proof.RVKFrag Proof.X86HAnn Proof.RVKClo.
 From SCC Require Model.Heap Proof.HeapMore Proof.HeapTrace Proof.HeapRep.
 Import ListNotations.
 Open Scope Z_scope.
@@ -88,6 +88,7 @@ Theorem hsim_switch c he hs s v t cls lc code lc' pc he0 x tn tag fs q cl e1 lk 
     (forall o, rfin im stop pcb s' o -> rfin im stop pc s o) /\
     rcs (ptypes p) (cl_body cl) (c0 ++ cl_ctx cl) lcb = Ok (cb, lcb') /\ placed im pcb cb /\
     lin_check (sigs_of p) (c0 ++ cl_ctx cl) (cl_body cl) = true /\
+    (has_nz cb -> has_nz code) /\
     hrel (c0 ++ cl_ctx cl) (he0 ++ attach e1 (load_ptrs hs (List.length (cl_ctx cl)) q))
          (hrun (load_ops (List.length (cl_ctx cl)) q) hs) s'.
 Proof.
@@ -127,21 +128,20 @@ Proof.
   assert (FL : find_label (labels im) fresh = Some pcl).
   { destruct PL as [_ LA]. rewrite <- app_assoc in LA. exact (LA O fresh eq_refl). }
   pose proof (label_addr_of im fresh pcl a FL AL) as LAD.
-  assert (NZ : forall c lcl cl lcb cb lcb', In c cls -> r_load (cl_ctx c) c0 lcl = Ok (cl, lcb) ->
-             rcs (ptypes p) (cl_body c) (c0 ++ cl_ctx c) lcb = Ok (cb, lcb') -> has_nz (cl ++ cb)).
-  { intros c' lcl cl' lcb cb lcb' Hin _ B. apply has_nz_app_r. unfold clauses_k in CH. rewrite forallb_forall in CH.
-    specialize (CH _ Hin). eapply cs_has_nz; eauto. }
-  destruct (dispatch_layout im stop IMG FWD STOPC ENDC (ptypes p) (fun cx lc0 => r_load cx c0 lc0) (fun cx => c0 ++ cx)
-              pcl fresh cls c3 (lc + 1)%N lc' a PL GC AL NZ k cl Hk)
-    as (i & pcc & lcl & cl1 & lcb & cb & lcb' & IX & ARR & DOWN & LD & BDY & PLb).
+  destruct (dispatch_layout_nz im stop IMG FWD STOPC ENDC (ptypes p) (fun cx lc0 => r_load cx c0 lc0) (fun cx => c0 ++ cx)
+              pcl fresh cls c3 (lc + 1)%N lc' a PL GC AL k cl Hk)
+    as (pcc & lcl & cl1 & lcb & cb & lcb' & (pre5 & post5 & E5) & DOWN & LD & BDY & PLb & LAND).
+  assert (NZC : has_nz cb -> has_nz (c1 ++ ([LAB fresh] ++ table_or_nil rv_backend cls fresh) ++ c3)).
+  { intros NZ. apply has_nz_app_r, has_nz_app_r. rewrite E5. apply has_nz_app_r, has_nz_app_l, has_nz_app_r. exact NZ. }
   (* control reaches the code of the clause; only X1 changes *)
   unfold clause in *.
   assert (JUMP : exists sj, (forall o, rfin im stop pcc sj o -> rfin im stop pc s o) /\
                             (forall a0, hword sj a0 = hword s a0) /\ (forall r, r <> TEMP -> rget sj r = rget s r)).
-  { destruct (Nat.leb (List.length cls) 1) eqn:LE.
+  { clear NZC. unfold clause in *. destruct (Nat.leb (List.length cls) 1) eqn:LE.
     - subst c1. exists s. split; [|auto]. intros o Fin. cbn [List.length padd] in pcl.
       exact (star_rfin im stop STOPC ENDC _ _ _ _ o (DOWN eq_refl s) Fin).
-    - destruct C1 as (tmpv & TVs & ->).
+    - destruct (LAND (or_intror eq_refl)) as (i & IX & ARR).
+      destruct C1 as (tmpv & TVs & ->).
       assert (tmpv = t2).
       { rewrite <- IDb in TVs. rewrite (rvt_of_nth0 (c0 ++ [b]) (List.length c0) b (hr_nodup R) (nth_error_mid _ _ _)) in TVs.
         rewrite L0 in T2. congruence. }
@@ -185,7 +185,7 @@ Proof.
     assert (e1 = []) by (rewrite ECX in BD; cbn in BD; congruence). subst e1.
     rewrite ECX in *. rewrite r_load_nil in LD. inversion LD; subst cl1 lcb. cbn [List.length padd] in PLbd.
     exists pcc, lcl, cb, lcb', sj. split; [exact XJ|]. split; [exact BDY|]. split; [exact PLbd|].
-    split; [exact LCb|].
+    split; [exact LCb|]. split; [exact NZC|].
     cbn [List.length load_ops hrun fold_left attach]. rewrite !app_nil_r.
     eapply (hrel_prefix (ptypes p) CLO); exact Rj.
   - set (fs := f0 :: fr) in *.
@@ -204,7 +204,7 @@ Proof.
       as (s' & XL & RL).
     exists (padd pcc (List.length cl1)), lcb, cb, lcb', s'.
     split; [intros o Fin; apply XJ; exact (star_rfin im stop STOPC ENDC _ _ _ _ o XL Fin)|].
-    split; [exact BDY|]. split; [exact PLbd|]. split; [exact LCb|].
+    split; [exact BDY|]. split; [exact PLbd|]. split; [exact LCb|]. split; [exact NZC|].
     rewrite <- Lfs. rewrite load_ops_run by (cbn; lia). exact RL.
 Qed.
 
@@ -218,7 +218,7 @@ Theorem hsim_invoke c he hs s v tag t args cd lc lc' pc he0 x tn cls ce q cl e1 
   InvA HEAP_BASE hs (roots he) hl fl cl0 -> P03 hs -> Heap.frontier hs <= LIMIT ->
   (ce <> [] -> HeapRep.rep_flds lk (Heap.m hs) (map snd ce) q) ->
   exists pcb lcb cb lcb' s',
-    (forall o, rfin im stop pcb s' o -> rfin im stop pc s o) /\
+    (has_nz cb -> forall o, rfin im stop pcb s' o -> rfin im stop pc s o) /\
     rcs (ptypes p) (cl_body cl) (cl_ctx cl ++ HRep.ctx_of_env ce) lcb = Ok (cb, lcb') /\ placed im pcb cb /\
     lin_check (sigs_of p) (cl_ctx cl ++ HRep.ctx_of_env ce) (cl_body cl) = true /\
     ann_check (cl_ctx cl ++ HRep.ctx_of_env ce) (cl_body cl) = true /\ stmt_k (cl_body cl) = true /\
@@ -251,7 +251,7 @@ Proof.
   destruct (find (fun d => ident_eqb (tname d) tn) (ptypes p)) as [d'|] eqn:FD; [|discriminate]. inversion LT; subst d'. clear LT.
   destruct (XC.find_clause_pos cls (txtors d) tag cl 0%N CO FC) as (k & xk & Hk & Hxk & XP & FX & SMk).
   pose proof (XC.cls_sig_length _ _ CO) as LCL.
-  destruct (ENTRY k cl Hk) as (i & pcc & lcl & cl1 & lcb & cb & lcb' & IX & ARR & LD & BDY & PLb & LCb & ANb & FRb).
+  destruct (ENTRY k cl Hk) as (pcc & lcl & cl1 & lcb & cb & lcb' & LD & BDY & PLb & LCb & ANb & FRb & LAND).
   assert (T2' : rtpos Snd (List.length c0) = Ok t2) by (rewrite <- L0; exact T2).
   assert (T1' : rtpos Fst (List.length c0) = Ok t1) by (rewrite <- L0; exact T1).
   (* the arguments, relabelled *)
@@ -264,14 +264,15 @@ Proof.
   assert (Le1 : List.length e1 = List.length (ptrs he0)).
   { destruct (bind_snd _ _ _ BD) as [_ B2]. apply (f_equal (@List.length ident)) in B2. unfold vars, ptrs in *. rewrite !map_length in *. lia. }
   (* the jump: only X1 changes *)
-  assert (JUMP : exists sj, (forall o, rfin im stop pcc sj o -> rfin im stop pc s o) /\
+  assert (JUMP : exists sj, (has_nz (cl1 ++ cb) -> forall o, rfin im stop pcc sj o -> rfin im stop pc s o) /\
                             (forall a0, hword sj a0 = hword s a0) /\ (forall r, r <> TEMP -> rget sj r = rget s r)).
   { cbn [b_mark b_jump b_add_and_jump b_jump_length rv_backend app] in CODE.
     rewrite <- LCL in CODE. destruct (Nat.leb (List.length cls) 1) eqn:LE.
     - (* one destructor: jump through the register *)
-      subst cd. rewrite Z.add_0_r in IX.
+      subst cd.
+      exists s. split; [|auto]. intros NZ o Fin. destruct (LAND NZ) as (i & IX & ARR). rewrite Z.add_0_r in IX.
       destruct (rv_jump_sel im 0 t2 a i s L2 AEV IX) as (cj & EJ & _). cbn [b_jump rv_backend] in EJ. rewrite EJ in CA.
-      exists s. split; [|auto]. intros o Fin. apply ARR in Fin. refine (star_rfin im stop STOPC ENDC _ _ _ _ o _ Fin).
+      apply ARR in Fin. refine (star_rfin im stop STOPC ENDC _ _ _ _ o _ Fin).
       eapply star_jump; [exact CA|]. intros ad.
       destruct (rv_jump_sel im ad t2 a i s L2 AEV IX) as (cj' & EJ' & ST). cbn [b_jump rv_backend] in EJ'.
       assert (cj' = cj) by congruence. subst cj'. exact ST.
@@ -287,10 +288,11 @@ Proof.
       assert (EV : wrap (a + off) mod 2 = 0).
       { rewrite WR. unfold off, jump_length. replace (a + 4 * Z.of_N (N.of_nat k)) with (a + (2 * Z.of_N (N.of_nat k)) * 2) by lia.
         rewrite Z.mod_add by lia. exact AEV. }
-      assert (IX' : PM.find (key (wrap (a + off))) (index_at im) = Some i) by (rewrite WR; exact IX).
       set (s1 := rset s TEMP (Some (wrap (a + off)))).
       exists s1. split; [|split].
-      + intros o Fin. apply ARR in Fin. refine (star_rfin im stop STOPC ENDC _ _ _ _ o _ Fin).
+      + intros NZ o Fin. destruct (LAND NZ) as (i & IX & ARR).
+        assert (IX' : PM.find (key (wrap (a + off))) (index_at im) = Some i) by (rewrite WR; exact IX).
+        apply ARR in Fin. refine (star_rfin im stop STOPC ENDC _ _ _ _ o _ Fin).
         eapply star_trans; [eapply (star_next im _ _ _ s s1); [exact CA|]|].
         * intros ad. destruct (rv_add_and_jump_sel im ad t2 off a i s L2 FI EV IX') as (c1 & c2 & E & ST1 & _).
           cbn [b_add_and_jump rv_backend r_add_and_jump] in E. inversion E; subst c1 c2. exact ST1.
@@ -325,7 +327,7 @@ Proof.
       as (s' & XL & RL).
     rewrite map_length in RL.
     exists (padd pcc (List.length cl1)), lcb, cb, lcb', s'.
-    split; [intros o Fin; apply XJ; exact (star_rfin im stop STOPC ENDC _ _ _ _ o XL Fin)|].
+    split; [intros NZ o Fin; apply (XJ (has_nz_app_r _ _ NZ)); exact (star_rfin im stop STOPC ENDC _ _ _ _ o XL Fin)|].
     split; [exact BDY|]. split; [exact PLbd|]. split; [exact LCb|]. split; [exact ANb|]. split; [exact FRb|].
     rewrite load_ops_run by (cbn; lia). exact RL.
 Qed.
